@@ -171,7 +171,7 @@ def parse_checks(checks) -> Union[Dict[str, Any], None]:
             continue
 
         # Get base statistics
-        base_stats = {} if check.statistics is None else check.statistics
+        base_stats = {} if check.statistics is None else dict(check.statistics)
 
         # Collect check options
         check_options = {
